@@ -756,6 +756,10 @@ func (x *Extractor) walkStmt(s ast.Stmt, c ctx) ctx {
 			x.indexOf[obj] = over
 			lbl = "range " + over // same label a `for i := range X` gets
 			ix = obj.Name()
+		} else if obj, over := x.reverseIndexLoop(st); obj != nil {
+			x.indexOf[obj] = over
+			lbl = "rrange " + over // the elements of X from the last to the first
+			ix = obj.Name()
 		}
 		cc.loopIx = append(append([]string(nil), c.loopIx...), ix)
 		cc.loops = append(append([]string(nil), c.loops...), lbl)
@@ -837,6 +841,55 @@ func (x *Extractor) indexLoop(st *ast.ForStmt) (types.Object, string) {
 		return nil, ""
 	}
 	return obj, x.Canon(lenArg)
+}
+
+// reverseIndexLoop recognises `for i := len(X) - 1; i >= 0; i--`.
+func (x *Extractor) reverseIndexLoop(st *ast.ForStmt) (types.Object, string) {
+	as, ok := st.Init.(*ast.AssignStmt)
+	if !ok || as.Tok != token.DEFINE || len(as.Lhs) != 1 || len(as.Rhs) != 1 {
+		return nil, ""
+	}
+	id, ok := as.Lhs[0].(*ast.Ident)
+	if !ok {
+		return nil, ""
+	}
+	obj := x.Info.Defs[id]
+	isI := func(e ast.Expr) bool { i, ok := ast.Unparen(e).(*ast.Ident); return ok && x.Info.Uses[i] == obj }
+	resolve := func(e ast.Expr) ast.Expr {
+		if i, ok := ast.Unparen(e).(*ast.Ident); ok {
+			if rhs, ok := x.bind[x.Info.Uses[i]]; ok {
+				return rhs
+			}
+		}
+		return e
+	}
+	// init: len(X) - 1
+	init, ok := ast.Unparen(resolve(as.Rhs[0])).(*ast.BinaryExpr)
+	if !ok || init.Op != token.SUB {
+		return nil, ""
+	}
+	if tv, ok := x.Info.Types[init.Y]; !ok || tv.Value == nil || tv.Value.ExactString() != "1" {
+		return nil, ""
+	}
+	ce, ok := ast.Unparen(resolve(init.X)).(*ast.CallExpr)
+	if !ok || len(ce.Args) != 1 {
+		return nil, ""
+	}
+	if f, ok := ast.Unparen(ce.Fun).(*ast.Ident); !ok || f.Name != "len" {
+		return nil, ""
+	}
+	// cond: i >= 0
+	be, ok := ast.Unparen(st.Cond).(*ast.BinaryExpr)
+	if !ok || be.Op != token.GEQ || !isI(be.X) {
+		return nil, ""
+	}
+	if tv, ok := x.Info.Types[be.Y]; !ok || tv.Value == nil || tv.Value.ExactString() != "0" {
+		return nil, ""
+	}
+	if p, ok := st.Post.(*ast.IncDecStmt); !ok || p.Tok != token.DEC || !isI(p.X) {
+		return nil, ""
+	}
+	return obj, x.Canon(ce.Args[0])
 }
 
 // pureExpr: no calls with possible effects on the tables (function literals, appends), so that
